@@ -257,6 +257,24 @@ def r_c14_relative_to_program_start(s4, repo, scratch):
             'observed': 'as expected' if not bad else 'with %s expected %d message(s), got %d' % bad, 'failed': bool(bad)}
 
 
+def r_c11_backwards_between_25_and_26_hours(s4, repo, scratch):
+    """time running backwards by more than 25 hours (here 25.5 h) is a year step; by 24.5 h it is not (the project's documented threshold)"""
+    bad = None
+    for name, rows in (('c11_25h30.log', [('Mar  5 12:00:00', 2023), ('Mar  4 10:30:00', 2024)]), ('c11_24h30.log', [('Mar  5 12:00:00', 2024), ('Mar  4 11:30:00', 2024)])):
+        inp = os.path.join(scratch, name)
+        open(inp, 'w').write(''.join('%s hostA app[1]: message %d\n' % (t, i + 1) for i, (t, y) in enumerate(rows)))
+        mt = 1709640000  # 2024-03-05 12:00:00 UTC
+        os.utime(inp, (mt, mt))
+        rc, out, err = run_s4(s4, ['--color', 'never', '-t=+00:00', '-u', '-d', '%Y', inp])
+        got = [l[:4].decode('ascii', 'replace') for l in out.split(b'\n') if l.strip()]
+        want = [str(y) for t, y in rows]
+        if got != want:
+            bad = bad or (name, ' '.join(want), ' '.join(got))
+    return {'name': 'C11.backwards_between_25_and_26_hours', 'input': os.path.join(scratch, 'c11_25h30.log'), 'how_made': 'two-line logs without a year whose second message lies 25.5 h / 24.5 h before the first; mtime 2024-03-05',
+            'cmd': '%s --color never -t=+00:00 -u -d %%Y <file>' % s4, 'expected': '2023 2024 for the 25.5 h step, 2024 2024 for the 24.5 h step',
+            'observed': 'as expected' if not bad else 'for %s expected %s, got %s' % bad, 'failed': bool(bad)}
+
+
 def r_c03_evtx_window(s4, repo, scratch):
     """an event log stored out of order: every record with creation time <= B is printed under --dt-before B"""
     f = os.path.join(repo, 'logs/programs/evtx/Microsoft-Windows-Kernel-PnP%4Configuration.evtx')
@@ -603,7 +621,7 @@ RECIPES = {
     'C06': [r_c01_tie_order, r_c01_chronological, r_c01_submillisecond],
     'C13': [r_c13_field_order_fixedstruct, r_c13_align_widest_printed, r_c13_evtx_prepend_file_only, r_c13_prependdate_lines_in_parts],
     'C03': [r_c03_journal_before_inclusive, r_c03_evtx_window, r_c03_yearless_tie_at_after, r_c14_relative_to_program_start],
-    'C11': [r_c11_years_across_two_new_years, r_c01_yearless_rollover_at_first_message],
+    'C11': [r_c11_years_across_two_new_years, r_c01_yearless_rollover_at_first_message, r_c11_backwards_between_25_and_26_hours],
     'C14': [r_c14_documented_forms, r_c14_relative_to_program_start],
     'C08': [r_c08_equal_times, r_c08_order, r_c08_smallest_layout_single_record, r_c08_compressed_returns_to_earlier_block],
 }
